@@ -719,3 +719,85 @@ Proof.
   - destruct (path_eqb q (pre ++ p)) eqn:E2; [|exact IH].
     apply path_eqb_eq in E2. subst q. rewrite strip_prefix_app in E. discriminate.
 Qed.
+
+(* ---------- failure modes ---------- *)
+Lemma flatname_loop_err fuel : forall name avoid maxlen e,
+  flatname_loop fuel name avoid maxlen = Error e -> e = EName \/ e = EFuel.
+Proof.
+  induction fuel as [|f IH]; intros name avoid maxlen e; cbn [flatname_loop]; [intros H; inversion H; tauto|].
+  destruct (maxlen <? Z.of_nat (String.length name)); [intros H; inversion H; tauto|].
+  destruct (smem name avoid); [apply IH|discriminate].
+Qed.
+
+Lemma name_scope_err inst maxlen sc : 0 <= maxlen -> forall ns acc e,
+  name_scope inst maxlen sc ns acc = Error e -> e = EName.
+Proof.
+  intros H0. induction sc as [|[p f] rest IH]; intros ns acc e; cbn [name_scope]; [discriminate|].
+  destruct (flatname [inst; to_name p] ns maxlen) as [nm|e'] eqn:E; cbn [bind].
+  - apply IH.
+  - intros H. inversion H; subst. pose proof (flatname_no_fuel [inst; to_name p] ns maxlen H0) as NF.
+    unfold flatname in E. destruct (flatname_loop_err _ _ _ _ _ E) as [->| ->]; [reflexivity|].
+    exfalso. apply NF. exact E.
+Qed.
+
+Lemma replace_bundle_inst_err maxlen port t ns e :
+  0 <= maxlen -> wf_tree t = true -> replace_bundle_inst maxlen port t ns = Error e -> e = EName.
+Proof.
+  intros H0 W H. unfold replace_bundle_inst, flatten_bundle_inst in H. rewrite (flat_helper_rflat port t W) in H.
+  cbn [bind] in H. eapply name_scope_err; eauto.
+Qed.
+
+Definition by_path (sc : scope) : list (path * string) := map (fun e => (fst e, fname (snd e))) sc.
+
+Lemma by_path_fst sc : map fst (by_path sc) = map fst sc.
+Proof. unfold by_path. rewrite map_map. reflexivity. Qed.
+
+Lemma by_path_passoc sc p : passoc p (by_path sc) = match passoc p sc with Some f => Some (fname f) | None => None end.
+Proof.
+  induction sc as [|[q f] rest IH]; [reflexivity|]. cbn [by_path map passoc fst snd]. destruct (path_eqb q p); [reflexivity|exact IH].
+Qed.
+
+(* two instances of the same definition (possibly in different modules, with different flips, roles, names) *)
+Lemma connection_same_def maxlen tc tp pport nsc nsp csc psc nsc' nsp' :
+  wf_tree tc = true -> wf_tree tp = true -> paths tc = paths tp ->
+  replace_bundle_inst maxlen true tc nsc = Ok (csc, nsc') -> replace_bundle_inst maxlen pport tp nsp = Ok (psc, nsp') ->
+  exists cs, replace_bundle_conn csc (by_path psc) = Ok cs /\ conns_ok csc (by_path psc) cs = true /\
+             NoDup (map fst cs) /\
+             forall p, In p (paths tc) -> exists fc fp, passoc p csc = Some fc /\ passoc p psc = Some fp /\ In (fname fc, fname fp) cs.
+Proof.
+  intros Wc Wp Hp Hc Hpp.
+  destruct (replace_bundle_inst_spec _ _ _ _ _ _ Wc Hc) as [Hfc [Nc _]].
+  destruct (replace_bundle_inst_spec _ _ _ _ _ _ Wp Hpp) as [Hfp _].
+  destruct (replace_bundle_conn_total csc (by_path psc)) as [cs Hcs].
+  { intros p Hin. rewrite by_path_fst, Hfp, <- Hp, <- Hfc. exact Hin. }
+  exists cs. split; [exact Hcs|]. split; [apply replace_bundle_conn_conns_ok; assumption|].
+  pose proof (replace_bundle_conn_spec _ _ _ Hcs) as F2.
+  assert (Hfst : map fst cs = snames csc).
+  { clear -F2. induction F2 as [|e c l l' [E _] _ IH]; [reflexivity|]. unfold snames in *. cbn [map]. rewrite E, IH. reflexivity. }
+  split; [rewrite Hfst; exact Nc|].
+  intros p Hin. rewrite <- Hfc in Hin. apply in_map_iff in Hin. destruct Hin as [[p' fc] [E Hin]]. cbn [fst] in E. subst p'.
+  destruct (Forall2_in_l _ _ _ _ F2 Hin) as [[n s] [Hcin [E1 E2]]]. cbn [fst snd] in *.
+  rewrite by_path_passoc in E2. destruct (passoc p psc) as [fp|] eqn:Ep; [|discriminate]. inversion E2; subst.
+  exists fc, fp. split; [|split; [reflexivity|exact Hcin]].
+  apply passoc_NoDup; [|exact Hin]. rewrite Hfc. apply paths_NoDup. exact Wc.
+Qed.
+
+(* every name produced respects the length limit *)
+Lemma name_scope_len inst maxlen sc0 : forall ns acc out ns',
+  name_scope inst maxlen sc0 ns acc = Ok (out, ns') ->
+  (forall e, In e acc -> Z.of_nat (String.length (fname (snd e))) <= maxlen) ->
+  forall e, In e out -> Z.of_nat (String.length (fname (snd e))) <= maxlen.
+Proof.
+  induction sc0 as [|[p f] rest IH]; intros ns acc out ns'; cbn [name_scope].
+  - intros H. inversion H; subst. auto.
+  - destruct (flatname [inst; to_name p] ns maxlen) as [nm|] eqn:E; cbn [bind]; [|discriminate].
+    intros H Hacc. eapply IH; [exact H|]. intros e He. apply in_app_iff in He. destruct He as [He|[<-|[]]]; [auto|].
+    cbn [snd fname]. unfold flatname in E. apply flatname_loop_spec in E. destruct E as [k [_ [_ [_ Hl]]]]. exact Hl.
+Qed.
+
+Lemma replace_bundle_inst_len maxlen port t ns sc ns' p f :
+  replace_bundle_inst maxlen port t ns = Ok (sc, ns') -> In (p, f) sc -> Z.of_nat (String.length (fname f)) <= maxlen.
+Proof.
+  unfold replace_bundle_inst. destruct (flatten_bundle_inst port t) as [fl|]; cbn [bind]; [|discriminate].
+  intros H Hin. apply (name_scope_len _ _ _ _ _ _ _ H (fun e (F : In e []) => match F with end) (p, f) Hin).
+Qed.
